@@ -17,6 +17,7 @@ import (
 	"strings"
 	"sync"
 	"testing"
+	"time"
 )
 
 type replay struct {
@@ -334,7 +335,11 @@ func RunReplays(t *testing.T, hs map[string]func()) {
 		if v := os.Getenv("VSYM_REPEAT"); v != "" {
 			fmt.Sscanf(v, "%d", &repeat)
 		}
-		func(i int) {
+		hang := 0
+		if v := os.Getenv("VSYM_HANG_SECS"); v != "" {
+			fmt.Sscanf(v, "%d", &hang)
+		}
+		body := func(i int) {
 			defer func() {
 				if r := recover(); r != nil {
 					if a, ok := r.(Abort); ok {
@@ -360,7 +365,25 @@ func RunReplays(t *testing.T, hs map[string]func()) {
 				}
 			}
 			fmt.Printf("VSYM-RESULT %d %s ok\n", i, fs[0])
-		}(idx)
+		}
+		if hang <= 0 {
+			body(idx)
+		} else {
+			// a replay that stops making progress (a deadlock) is reported for
+			// itself; its goroutines are abandoned and the next replay starts
+			// from a fresh state
+			done := make(chan struct{})
+			go func(i int) {
+				defer close(done)
+				body(i)
+			}(idx)
+			select {
+			case <-done:
+			case <-time.After(time.Duration(hang) * time.Second):
+				fmt.Printf("VSYM-RESULT %d %s timeout: no result within %ds\n", idx, fs[0], hang)
+				wg = sync.WaitGroup{}
+			}
+		}
 		idx++
 	}
 }
